@@ -254,4 +254,25 @@ PROPS = {
                 "storage/chain-node queries (worlds have <100 blocks), the handler and worker stay alive and every chain event "
                 "is processed at fair quiescence. Non-trivial = at least one request was answered (not refused).",
     },
+    "C17": {
+        "level": "exploration",
+        "race": True, "race_jobs_every": 3,
+        "quick_runs": 1800, "thorough_runs": 90000, "chunk": 50,
+        "thorough_params": {"pre": 40, "rounds": 10},
+        "nontrivial_stat": "op.query,probe.concurrent_clients",
+        "rule": "two kinds of runs. (a) schedule part (2 of 3 jobs): a wallet follows a generated chain; 1-5 times per run "
+                "1-4 chain events (blocks, reorganisations) are queued and ONE query (WalletBalance, AddressBalance, GetUtxo, "
+                "AutoCreateRawTransaction, UseWallet) starts on a goroutine that parks before every database read of its "
+                "read transactions (begin, get, prefix scan, iterator seek/next); the schedule tape decides after each read "
+                "whether the handler commits next. The wallet's synced block after every commit during the query is "
+                "recorded; the answer must equal the reference ledger's view at ONE of those blocks (balances incl. "
+                "spendable/withdrawable parts, per-address balances, the coin list; for coin selection: every input an "
+                "unspent, standard, mature coin at that block, none twice). (b) memory part (every 3rd job, binary built "
+                "with the Go race detector): API requests of all 29 methods (one in flight at a time), the handler and the "
+                "worker (imports, removals) are interleaved by the schedule tape; the simulator's own hand-offs are hidden "
+                "from the detector (runtime.RaceDisable around them), so the detector reports every pair of accesses of "
+                "wallet memory that the wallet's own synchronisation does not order in the executed schedule - "
+                "deterministically per tape, whether or not they were simultaneous in real time. Reports whose "
+                "access belongs to the simulator are ignored. Non-trivial = a query ran / a concurrent round ran.",
+    },
 }
